@@ -45,6 +45,6 @@ def main (args : List String) : IO UInt32 := do
   | ["C12"] => loopState stdin stdout C12.step C12.init; return 0
   | ["C13"] => loopState stdin stdout C12.step C12.init; return 0
   | ["C09"] => loop stdin stdout C09.step; return 0
-  | ["C10"] => loopState stdin stdout C10.step []; return 0
+  | ["C10"] => loopState stdin stdout C10.step {}; return 0
   | ["C14"] => loopState stdin stdout C14.step {}; return 0
   | _ => IO.eprintln "usage: rvdriver <property-id> < ops"; return 2
